@@ -19,7 +19,7 @@ LEVEL = 'exploration'
 TECHNIQUE = ('exhaustive enumeration of pumping families (unit alphabet derived from the regex patterns) x contexts x suffixes x '
              'doubling lengths up to a bound, CPU-time oracle in killable isolated workers')
 LEVEL_TEXT = ('Every unit of a run-time derived alphabet (every literal character and character-class member of every compiled '
-              'pattern in pytrs.parser.rgxlib, plus ~45 short tokens) is pumped in 13 contexts x 7 suffixes (and, as a bare Tract, in 7 x 4 contexts) with n = 4, 8, 16, ... up to '
+              'pattern in pytrs.parser.rgxlib, plus ~45 short tokens) is pumped in 15 contexts x 8 suffixes (and, as a bare Tract, in 7 x 4 contexts) with n = 4, 8, 16, ... up to '
               '300 (quick) / 600 (thorough) characters; thorough adds all two-unit alternations; 39 structural families (repeated '
               'Twp/Rge lines, section headers, lots, lists, aliquots, chains; ranges with k-digit end points and repeated maximal ranges, '
               'whose expansion is large although the text is short), whitespace runs around every pattern word, and every short token '
@@ -57,11 +57,13 @@ PREFIXES = [
     'Section 4',
     'NE/4 of Section 4',
     'T154N-R97W Sec 14: N/2N/2NE/4 of',
+    'Township 154 North',            # a township whose range is still to come (or never comes)
+    'Sec 14: NE/4, T154N',
 ]
 # Tract-level pumping (the Tract sees its text raw: whitespace runs are not reduced as in a PLSSDesc)
 TRACT_PREFIXES = ['', 'N/2', 'N/2N/2NE/4 of', 'Lot 1', 'N/2 of Lot 1', 'N½' * 20 + ' of', 'NE']
 TRACT_SUFFIXES = ['', ' x', ' NE/4', ' Lot 2']
-SUFFIXES = ['', ' x', ' P.M.', ': NE/4', ' Sec 15: Lot 2, T155N-R97W', ' T155N-R97W: NE/4', ', T155N-R97W']
+SUFFIXES = ['', ' x', ' P.M.', ': NE/4', ' Sec 15: Lot 2, T155N-R97W', ' T155N-R97W: NE/4', ', T155N-R97W', 'Range 97, Section 14: NE/4']
 TOKENS = ['. ', ', ', '; ', ': ', '- ', ' - ', 'and ', ' and ', '& ', ' of ', ' the ', ' of the ', ' to ', ' thru ', ' through ',
           'Sec ', 'Sec. ', 'Section ', '1 ', '1, ', '14 ', '1 - ', 'Lot ', 'Lots ', 'Lot 1 ', 'L1 ', 'N/2', 'N/2 ', 'NE', 'NE ', 'NE/4',
           'N½', 'NE¼', 'North ', 'Half ', 'Quarter ', 'T154N-R97W\n', 'T154N ', 'R97W ', '154N ', 'P.M. ', 'PM', '(40.00) ', '( ', '[ ',
